@@ -63,6 +63,41 @@ fn program(pk: &str, pn: u64, why: &str, std: bool, v: u64) -> BTreeMap<String, 
             f.insert("main.sy".into(), body);
             return f;
         }
+        "chain" => {
+            // files WITH a syntax error of their own import further files that have errors (syntax errors, conflict
+            // markers) or do not exist; every file's errors are to be printed
+            let head = say(std, "\"never printed\"");
+            let broken_fn = |name: &str, tok: &str| format!("{} :: fn do\n    z := {}\nend\n", name, tok);
+            let conflict = "a :: fn do\nend\n<<<<<<< HEAD\nb :: 1\n=======\nb :: 2\n>>>>>>> other\n";
+            let main = |uses: &str| format!("{}\nf1 :: fn do\n    x := (1 +\nend\n\nstart :: fn do\n{}    f1()\nend\n", uses, head);
+            match v {
+                0 => {
+                    // depth 2 and depth 3 at once: main (broken) -> mid (broken), a missing file, a conflict-marked file;
+                    // mid -> leaf (broken), another missing file, another conflict-marked file
+                    f.insert("main.sy".into(), main("use mid\nuse c20gone1\nuse confa\n"));
+                    f.insert("mid.sy".into(), format!("use leaf\nuse c20gone2\nuse confb\n\n{}", broken_fn("g", ")")));
+                    f.insert("leaf.sy".into(), broken_fn("h", "]"));
+                    f.insert("confa.sy".into(), conflict.into());
+                    f.insert("confb.sy".into(), conflict.replace("a ::", "c ::"));
+                }
+                1 => {
+                    // a chain: main (broken) -> mid (broken) -> leaf (broken) -> two missing files
+                    f.insert("main.sy".into(), main("use mid\n"));
+                    f.insert("mid.sy".into(), format!("use leaf\n\n{}", broken_fn("g", ")")));
+                    f.insert("leaf.sy".into(), format!("use c20gone1\nuse c20gone2\n\n{}", broken_fn("h", "]")));
+                }
+                _ => {
+                    // a diamond: main (broken) -> suba (broken), subb (fine); subb -> subc (broken) -> a missing file;
+                    // suba -> a missing file, a conflict-marked file, subc
+                    f.insert("main.sy".into(), main("use suba\nuse subb\n"));
+                    f.insert("suba.sy".into(), format!("use c20gone1\nuse confa\nuse subc\n\n{}", broken_fn("g", ")")));
+                    f.insert("subb.sy".into(), "use subc\n\nk :: fn do\nend\n".into());
+                    f.insert("subc.sy".into(), format!("use c20gone2\n\n{}", broken_fn("h", "]")));
+                    f.insert("confa.sy".into(), conflict.into());
+                }
+            }
+            return f;
+        }
         "missing2" | "missing3" | "missing_shared" | "missing_plus_syntax" => {
             let head = say(std, "\"never printed\"");
             match why {
@@ -251,6 +286,19 @@ fn program(pk: &str, pn: u64, why: &str, std: bool, v: u64) -> BTreeMap<String, 
         }
     }
     f
+}
+
+/// Every generator above breaks a file with one of these fragments, and nothing else contains them.
+const BREAKS: [&str; 8] = [":= )", ":= ]", ":: )", ":: ]", ":= (1 +", "c20_nope", ": int = \"a\"", "<<<<<<<"];
+
+/// The source files that carry an error of their own, by the program's construction: the files a generator broke
+/// and the imported files that do not exist.
+fn planted_files(files: &BTreeMap<String, String>, missing: &[String]) -> Vec<String> {
+    let mut out: Vec<String> = files.iter().filter(|(_, t)| BREAKS.iter().any(|b| t.contains(b))).map(|(n, _)| n.clone()).collect();
+    out.extend(missing.iter().cloned());
+    out.sort();
+    out.dedup();
+    out
 }
 
 // ------------------------------------------------------------------------------------------- command line
@@ -755,10 +803,72 @@ fn apply_stub(
     }
 }
 
+/// What the objects behind stdout / stderr hold before the command starts (`append`, `shared`) and what the holder of
+/// the original descriptor writes after it has ended (`shared`).  Neither names a source file, and they start differently.
+const EARLIER: &str = "-- c20: this line was in the object before the command started\n-- c20: and so was this one\n";
+const LATER: &str = "## c20: written through the same descriptor after the command ended\n";
+
+/// One of the command's output descriptors, set up as the configuration's `io` says.
+struct Stream {
+    /// `shared`: the original descriptor (same open file description as the one the command inherits)
+    keep: Option<std::fs::File>,
+    pre: Vec<u8>,
+    post: Vec<u8>,
+}
+
+fn open_stream(p: &Path, io: &str) -> (Stdio, Stream) {
+    use std::io::Write;
+    let fail = |e: std::io::Error| -> ! { tool_error(&format!("{}: {}", p.display(), e)) };
+    match io {
+        "pipe" => (Stdio::piped(), Stream { keep: None, pre: vec![], post: vec![] }),
+        // `>> log`: a regular file that already has content, opened for appending
+        "append" => {
+            std::fs::write(p, EARLIER).unwrap_or_else(|e| fail(e));
+            let f = std::fs::OpenOptions::new().append(true).open(p).unwrap_or_else(|e| fail(e));
+            (Stdio::from(f), Stream { keep: None, pre: EARLIER.as_bytes().to_vec(), post: vec![] })
+        }
+        // `{ echo H; sylt ..; echo F; } > f`: one open file description, positioned behind what was written through it
+        "shared" => {
+            let mut f = std::fs::File::create(p).unwrap_or_else(|e| fail(e));
+            f.write_all(EARLIER.as_bytes()).unwrap_or_else(|e| fail(e));
+            let dup = f.try_clone().unwrap_or_else(|e| fail(e));
+            (Stdio::from(dup), Stream { keep: Some(f), pre: EARLIER.as_bytes().to_vec(), post: LATER.as_bytes().to_vec() })
+        }
+        _ => (Stdio::from(std::fs::File::create(p).unwrap_or_else(|e| fail(e))), Stream { keep: None, pre: vec![], post: vec![] }),
+    }
+}
+
+/// The object's content after everything: (the command's piece, raw facts about what surrounds it).
+fn split_stream(raw: &[u8], st: &Stream) -> (Vec<u8>, Value) {
+    let pre_ok = raw.starts_with(&st.pre);
+    let post_ok = raw.len() >= st.pre.len() + st.post.len() && raw.ends_with(&st.post);
+    let start = st.pre.len().min(raw.len());
+    let end = if post_ok { raw.len() - st.post.len() } else { raw.len() }.max(start);
+    (raw[start..end].to_vec(), json!({"pre_len": st.pre.len(), "pre_ok": pre_ok, "post_len": st.post.len(), "post_ok": post_ok, "len": raw.len()}))
+}
+
+/// Negative control: the object as a second, truncating opening with its own offset would have left it - what was
+/// there is gone, the command's bytes start at 0, and the later write (at the original descriptor's offset) lies on top.
+fn reopened(raw: &[u8], st: &Stream) -> Option<Vec<u8>> {
+    let (cmd, _) = split_stream(raw, st);
+    if st.pre.is_empty() || cmd.is_empty() {
+        return None;
+    }
+    let mut out = cmd;
+    if !st.post.is_empty() {
+        let at = st.pre.len();
+        if out.len() < at + st.post.len() {
+            out.resize(at + st.post.len(), 0);
+        }
+        out[at..at + st.post.len()].copy_from_slice(&st.post);
+    }
+    Some(out)
+}
+
 fn run_case(case: &Value, sylt: &str, lua: &str, scratch: &Path, shimdir: &Path, preamble: &str) -> Value {
     let idx = case["idx"].as_u64().unwrap();
     let cfg = &case["cfg"];
-    let (mode, path) = (cfg["mode"].as_str().unwrap(), cfg["path"].as_str().unwrap());
+    let (mode, path, io) = (cfg["mode"].as_str().unwrap(), cfg["path"].as_str().unwrap(), cfg["io"].as_str().unwrap());
     let (pk, pn, why) = (cfg["pk"].as_str().unwrap(), cfg["pn"].as_u64().unwrap(), cfg["why"].as_str().unwrap());
     let (std_, nostd, req) = (cfg["std"].as_bool().unwrap(), cfg["nostd"].as_bool().unwrap(), cfg["req"].as_bool().unwrap());
     let v = case["v"].as_u64().unwrap();
@@ -766,7 +876,7 @@ fn run_case(case: &Value, sylt: &str, lua: &str, scratch: &Path, shimdir: &Path,
     let stub = case["stub"].as_str().unwrap_or("").to_string();
     let files = program(pk, pn, why, std_, v);
     let missing: Vec<String> = match why {
-        "missing2" => vec!["c20gone1.sy", "c20gone2.sy"],
+        "missing2" | "chain" => vec!["c20gone1.sy", "c20gone2.sy"],
         "missing3" => vec!["c20gone1.sy", "c20gone2.sy", "c20gone3.sy"],
         "missing_shared" | "missing_plus_syntax" => vec!["c20gone1.sy"],
         _ => vec![],
@@ -774,6 +884,7 @@ fn run_case(case: &Value, sylt: &str, lua: &str, scratch: &Path, shimdir: &Path,
     .into_iter()
     .map(String::from)
     .collect();
+    let planted = planted_files(&files, &missing);
     let names = Recog { names: files.keys().cloned().collect(), missing: missing.clone() };
     let (args, module) = argv(cfg, spell, idx);
 
@@ -891,27 +1002,31 @@ fn run_case(case: &Value, sylt: &str, lua: &str, scratch: &Path, shimdir: &Path,
         .env("C20_LUAERR", &luaerr_p)
         .env("C20_STARTED", &started_p)
         .env("C20_DONE", &done_p)
-        .stdin(Stdio::null())
-        .stdout(if path == "unwritable" {
-            // stdout itself is the unwritable output path: every write to it fails with ENOSPC
-            std::fs::write(&so_p, b"").unwrap();
-            Stdio::from(std::fs::OpenOptions::new().write(true).open("/dev/full").unwrap_or_else(|e| tool_error(&format!("/dev/full: {}", e))))
-        } else if path == "dev_stdout" {
-            // FILE = /dev/stdout shall be a pipe (not a regular file): the recorder reads its other end
-            Stdio::piped()
-        } else {
-            Stdio::from(std::fs::File::create(&so_p).unwrap())
-        })
-        .stderr(std::fs::File::create(&se_p).unwrap());
+        .stdin(Stdio::null());
+    let (so_io, mut so_st) = if path == "unwritable" {
+        // stdout itself is the unwritable output path: every write to it fails with ENOSPC
+        std::fs::write(&so_p, b"").unwrap();
+        let full = std::fs::OpenOptions::new().write(true).open("/dev/full").unwrap_or_else(|e| tool_error(&format!("/dev/full: {}", e)));
+        (Stdio::from(full), Stream { keep: None, pre: vec![], post: vec![] })
+    } else if path == "dev_stdout" {
+        // FILE = /dev/stdout shall be a pipe (not a regular file): the recorder reads its other end
+        open_stream(&so_p, "pipe")
+    } else {
+        open_stream(&so_p, io)
+    };
+    let (se_io, mut se_st) = open_stream(&se_p, io);
+    cmd.stdout(so_io).stderr(se_io);
     let mut child = cmd.spawn().unwrap_or_else(|e| tool_error(&format!("cannot start {}: {}", sylt, e)));
-    let pipe_reader = child.stdout.take().map(|mut out| {
+    drop(cmd); // the recorder's copies of the descriptors handed to the command
+    fn drain<R: std::io::Read + Send + 'static>(mut r: R) -> std::thread::JoinHandle<Vec<u8>> {
         std::thread::spawn(move || {
-            use std::io::Read;
             let mut got = Vec::new();
-            let _ = out.read_to_end(&mut got);
+            let _ = r.read_to_end(&mut got);
             got
         })
-    });
+    }
+    let pipe_reader = child.stdout.take().map(drain);
+    let err_reader = child.stderr.take().map(drain);
     let t0 = std::time::Instant::now();
     let (mut exit, timed_out) = loop {
         match child.try_wait().unwrap() {
@@ -929,14 +1044,41 @@ fn run_case(case: &Value, sylt: &str, lua: &str, scratch: &Path, shimdir: &Path,
     if lua_started {
         wait_for(&done_p, 5000);
     }
-    let mut so = match pipe_reader {
+    // `shared`: the holder of the original descriptors writes on, now that the command (and an orphaned child) has ended
+    for st in [&mut so_st, &mut se_st] {
+        if let Some(f) = st.keep.as_mut() {
+            use std::io::Write;
+            f.write_all(&st.post).unwrap_or_else(|e| tool_error(&format!("later write: {}", e)));
+        }
+        st.keep = None;
+    }
+    let mut so_raw = match pipe_reader {
         Some(h) => h.join().unwrap_or_default(),
         None => std::fs::read(&so_p).unwrap_or_default(),
     };
+    let mut se_raw = match err_reader {
+        Some(h) => h.join().unwrap_or_default(),
+        None => std::fs::read(&se_p).unwrap_or_default(),
+    };
     fifo_stop.store(true, std::sync::atomic::Ordering::SeqCst);
     let fifo_got: Vec<u8> = fifo_reader.map(|h| h.join().unwrap_or_default()).unwrap_or_default();
-    let mut se = std::fs::read(&se_p).unwrap_or_default();
-    let stub_applied = if stub.is_empty() { false } else { apply_stub(&stub, mode, &mut exit, &mut so, &mut se, &target, preamble, &names, &old) };
+    let mut reopen_applied = false;
+    if stub == "reopen-stdout" || stub == "reopen-stderr" {
+        let (raw, st) = if stub == "reopen-stdout" { (&mut so_raw, &so_st) } else { (&mut se_raw, &se_st) };
+        if let Some(new) = reopened(raw, st) {
+            *raw = new;
+            reopen_applied = true;
+        }
+    }
+    let (mut so, so_world) = split_stream(&so_raw, &so_st);
+    let (mut se, se_world) = split_stream(&se_raw, &se_st);
+    let stub_applied = if stub.is_empty() {
+        false
+    } else if stub.starts_with("reopen-") {
+        reopen_applied
+    } else {
+        apply_stub(&stub, mode, &mut exit, &mut so, &mut se, &target, preamble, &names, &old)
+    };
     let so_text = String::from_utf8_lossy(&so).to_string();
     let se_text = String::from_utf8_lossy(&se).to_string();
     let chunk = std::fs::read(&chunk_p).unwrap_or_default();
@@ -971,6 +1113,7 @@ fn run_case(case: &Value, sylt: &str, lua: &str, scratch: &Path, shimdir: &Path,
 
     // error blocks wherever the command printed them
     let mut all_blocks = blocks(&so_text, &names);
+    let blocks_so = all_blocks.len();
     all_blocks.extend(blocks(&se_text, &names));
     let has_out = ref_out.is_empty() || so_text.contains(&ref_out);
     let lua_msg_printed = !luaerr.is_empty() && (so_text.contains(&luaerr) || se_text.contains(&luaerr));
@@ -980,13 +1123,14 @@ fn run_case(case: &Value, sylt: &str, lua: &str, scratch: &Path, shimdir: &Path,
     }
     json!({
         "idx": idx, "base": case["base"], "v": v, "spell": spell, "cfg": cfg, "argv": args, "module": module,
-        "stub": stub, "stub_applied": stub_applied, "missing": missing,
+        "stub": stub, "stub_applied": stub_applied, "missing": missing, "planted": planted,
+        "world": {"io": io, "so": so_world, "se": se_world},
         "files": files, "exit": exit, "timed_out": timed_out,
         "se": {"len": se.len(), "panic": se_text.contains("panicked at"), "summary": se_text.starts_with("Error: "),
                "text": se_text.chars().take(400).collect::<String>()},
         "so": {"len": so.len(), "digest": digest(&so), "lcp_lua": lcp(&so, lua_like), "lcp_out": lcp(&so, ref_out.as_bytes()), "has_out": has_out,
                "markers": count_sub(&so_text, "-- End Sylt preamble"), "head": strip_ansi(&so_text).chars().take(300).collect::<String>()},
-        "blocks": block_facts(&all_blocks),
+        "blocks": block_facts(&all_blocks), "blocks_so": blocks_so,
         "lua": {"started": lua_started, "chunk_len": chunk.len(), "chunk_digest": digest(&chunk),
                 "chunk_lcp": lcp(&chunk, lua_like), "err_len": luaerr.len(), "msg_printed": lua_msg_printed},
         "old_len": old.len(), "before": before, "after": after, "extra_files": extra.len(), "sources_intact": sources_intact,
